@@ -1,5 +1,6 @@
 import GitSizer.Proofs.Output
 import GitSizer.Model.OidJson
+import GitSizer.Gen.Flows
 /-! # C19 — Reports are well-formed for any names
     Footnote numbering for every sequence of footnote texts (arbitrary bytes), and the JSON form of
     object ids. That names are written unescaped into the *table* (so a name containing a newline,
@@ -52,5 +53,22 @@ theorem oid_json_token (o : Bytes) :
 
 /-- non-vacuity: three citations, two distinct texts -/
 example : (citeAll {} [[97], [98], [97]]).notes = [[97], [98]] := by decide
+
+/-! ## the report reaches stdout verbatim, REGENERATED (git-sizer.go) -/
+
+abbrev MEv := String × String × List (String × String)
+def mainFlowOf (name : String) : List MEv := ((Gen.Flows.mainFile.find? (fun f => f.1 == name)).map (·.2)).getD []
+
+/-- **what the renderers produce is what is written**: after the scan, the JSON branch ends with
+    `fmt.Fprintf(stdout, "%s\n", j)` — a constant format, the document as an argument — and the table branch is
+    `io.WriteString(stdout, historySize.TableString(…))`; no other statement lies in either branch after the document
+    exists. A name can therefore never be interpreted on its way out (seeded change C19k wrote the report AS the
+    format string: every `%` in a name became a verb). -/
+theorem report_written_verbatim :
+    ((mainFlowOf "mainImplementation").filter (fun e => e.2.2 == [("i36", "t")] && e.1 == "call")).map (·.2.1) =
+      ["fmt.Fprintf(stdout, \"%s\\n\", j)"] ∧
+    ((mainFlowOf "mainImplementation").filter (fun e => e.2.2 == [("i36", "e")])).map (fun e => (e.1, e.2.1)) =
+      [("assign-err", "_, err := io.WriteString(stdout, historySize.TableString(rg.Groups(), threshold, nameStyle))")] := by
+  refine ⟨?_, ?_⟩ <;> decide +kernel
 
 end GitSizer.C19
